@@ -101,6 +101,7 @@ FibPos(e) ==
     [] OTHER -> {}
 NotFibers(e) == {n \in FibPos(e) \cap DOMAIN env : env[n].k \notin {"view", "lf", "dflt"}}
 IsActivity == I.op = "expr" /\ IsMeth(I.e, "addActivity") /\ Unbound = {}
+IsCanvas == I.op = "assign" /\ IsCallTo(I.e, "createCanvas") /\ Unbound = {}
 RECURSIVE RootName(_), KeyPath(_, _, _), SetIn(_, _, _)
 RootName(e) == IF e.e = "name" THEN e.id ELSE RootName(e.obj)
 KeyPath(e, en, st) == IF e.e = "name" THEN <<>> ELSE KeyPath(e.obj, en, st) \o <<Eval(e.key, en, st)>>
@@ -173,6 +174,7 @@ Step ==
             /\ NewTensor(I.dst, StrSeq(Kw(I.e, "rank_ids")), <<>>) /\ Adv /\ UNCHANGED <<stack, err, upd>>
        [] I.op = "assign" /\ IsCallTo(I.e, "createCanvas") ->
             /\ env' = Bind(env, I.dst, [k |-> "canvas", ar |-> [i \in 1..Len(I.e.args) |-> Len(Obj(I.e.args[i]).ids)]])
+            /\ stamps' = {} /\ UNCHANGED <<acts, dup>>          \* a new canvas: stamps are unique per canvas (one per Einsum)
             /\ Adv /\ UNCHANGED <<objs, store, stack, err, upd>>
        [] I.op = "assign" /\ IsMeth(I.e, "fromFiber") ->
             LET f == Eval(Kw(I.e, "fiber"), env, store)  ids == StrSeq(Kw(I.e, "rank_ids")) IN
@@ -285,7 +287,7 @@ Step ==
                  ELSE /\ store' = [store EXCEPT ![r.sid].m = Bind(m, r.path, IF I.bop = "+" THEN old + v.n ELSE v.n)]
                       /\ upd' = upd + 1 /\ Adv /\ UNCHANGED <<env, objs, stack, err>>
   /\ UNCHANGED <<pid, cfg, supi, sup, variant>>
-  /\ (IsActivity \/ UNCHANGED obsv)
+  /\ (IsActivity \/ IsCanvas \/ UNCHANGED obsv)
   /\ mp' = IF Unbound = {} THEN MpNext ELSE mp
   /\ nstd' = IF err' = "" /\ I.op \in {"assign", "aug", "setitem"} THEN nstd + 1 ELSE nstd
 Spec == Init /\ [][Step]_vars
